@@ -30,6 +30,11 @@ func Uni(s string) Spec    { return Spec{T: "unicode", V: s} }
 func None() Spec           { return Spec{T: "none"} }
 func Dict() Spec           { return Spec{T: "dict"} }
 
+// WithID registers the object built from s under number k; Ref(k) stands for that very object again (a shared
+// reference: CPython then writes a memo opcode -- PUT/BINPUT/MEMOIZE once, GET/BINGET for every further use).
+func (s Spec) WithID(k int) Spec { s.ID = &k; return s }
+func Ref(k int) Spec             { return Spec{T: "ref", I: &k} }
+
 type Server struct {
 	mu      sync.Mutex
 	cmd     *exec.Cmd
